@@ -6,7 +6,7 @@ import impl, gen, oracle, evalutil as E
 from impl import quiet, F
 from props.c10 import summ_equal
 
-RULE = ("base pairs x input types x matchers x injective relabellings of prediction and reference labels into [1, 2^24) "
+RULE = ("class-group scenes under consistent renaming of array labels and group definitions (incl. label sets whose set-iteration order is not ascending or looks contiguous); base pairs x input types x matchers x injective relabellings of prediction and reference labels into [1, 2^24) "
         "biased to {2^k-1, 2^k, 2^k+1} (k = 7,8,15,16,23), to products around 2^32 and to label sums that are multiples of "
         "2^bits x dtypes uint8/16/32/64 (signed int32/int64 for semantic input); matched input relabelled jointly; "
         "non-trivial = relabelling is not the identity and hits a boundary class; cases with tied competing candidates "
@@ -229,8 +229,70 @@ def near_tie_relabel(ctx, n):
                           impl={"labels_1_2": a, "labels_2_1": b}, key={"kind": "not-invariant"})
 
 
+def grouped_relabel_cases(ctx, n):
+    """class groups: renaming the labels of the arrays and of the group definitions consistently (injectively,
+    instance labels of one class renamed independently) must leave every group's result unchanged; the group label
+    sets include sets whose Python set-iteration order is not ascending / looks like a contiguous block"""
+    rng = ctx.rng
+    for i in range(n):
+        shape = (rng.randint(8, 14), rng.randint(8, 14))
+        ka, kb = rng.randint(2, 4), rng.randint(1, 2)
+        ref = np.zeros(shape, np.int64)
+        pred = np.zeros(shape, np.int64)
+        inst = list(range(1, ka + kb + 1))            # abstract instance ids: first ka belong to class a, rest to class b
+        for l in inst:
+            tmp = np.zeros(shape, np.uint8)
+            gen.put_object(rng, tmp, 1, kind=rng.choice(["box", "box", "line", "L"]))
+            ref[(tmp == 1) & (ref == 0)] = l
+            tmp2 = np.roll(tmp, rng.choice([0, 0, 1]), axis=rng.choice([0, 1])) if rng.random() < 0.8 else np.zeros_like(tmp)
+            pred[(tmp2 == 1) & (pred == 0)] = l
+        results = []
+        for v in range(3):
+            mode = rng.choice(["plain", "setorder", "deceptive"]) if v else "identity"
+            if mode == "identity":
+                la, lb = inst[:ka], inst[ka:]
+            else:
+                got = gen.set_order_labels(rng, k=ka, hi=60, deceptive=(mode == "deceptive")) if mode != "plain" else None
+                la = got[0] if got else rng.sample(range(1, 200), ka)
+                lo, hi = min(la), max(la)
+                inside = [x for x in range(lo, hi + 1) if x not in la]
+                pool = inside if (inside and rng.random() < 0.7) else [x for x in range(1, 250) if x not in la]
+                if len(pool) < kb:
+                    pool = [x for x in range(1, 250) if x not in la]
+                lb = rng.sample(pool, kb)
+            rng.shuffle(la)
+            m = dict(zip(inst, list(la) + list(lb)))
+            dt = rng.choice([np.uint8, np.uint16, np.uint32])
+            p2, r2 = relabel(pred, m, dt), relabel(ref, m, dt)
+            groups = [{"name": "a", "labels": sorted(la) if rng.random() < 0.5 else list(la), "merge": False, "single": False},
+                      {"name": "b", "labels": list(lb), "merge": False, "single": False}]
+            cfg = E.mk_cfg("UNMATCHED", ["IOU", "DSC", "RVD"], matcher=E.naive("IOU", (1, 4)))
+            inp = {"shape": list(shape), "pred": gen.arr_json(p2), "ref": gen.arr_json(r2), "dtype": str(np.dtype(dt)), "cfg": cfg,
+                   "groups": groups, "labelling": mode, "src": f"grouped{i}.{v}"}
+            ctx.case(inp, mode != "identity")
+            ctx.count("grouped_relabel." + mode)
+            res = E.run_impl(cfg, p2, r2, groups=groups)
+            results.append((mode, inp, res))
+        b = results[0][2]
+        if isinstance(b, str):
+            continue
+        for mode, inp, res in results[1:]:
+            if isinstance(res, str):
+                ctx.violation(f"evaluation with relabelled class groups raised {res}", inp, impl=res, key={"kind": "raises"})
+                continue
+            for g in ("a", "b"):
+                d = summ_equal(b[g], res[g], cfg["eval_metrics"])
+                if d:
+                    inp2 = dict(inp)
+                    inp2["base"] = results[0][1]
+                    ctx.violation(f"result of class group {g} changes when instance labels are renamed (group labels {inp['groups'][0]['labels']} / "
+                                  f"{inp['groups'][1]['labels']}): {d}", inp2, impl={"base": b[g], "relabelled": res[g]}, key={"kind": "not-invariant"})
+                    break
+
+
 def run(ctx):
     corpus(ctx)
+    grouped_relabel_cases(ctx, ctx.scale(60, 600))
     wrap_sum_corpus(ctx)
     near_tie_relabel(ctx, ctx.scale(4, 30))
     run_cases(ctx, ctx.scale(250, 2500), "rand")
@@ -242,6 +304,18 @@ def search(ctx):
 
 def replay(ctx, rec):
     i = rec["input"]
+    if "groups" in i and "base" in i:
+        def run(x):
+            dt = np.dtype(x["dtype"])
+            return E.run_impl(x["cfg"], np.array(x["pred"], dtype=dt).reshape(x["shape"]), np.array(x["ref"], dtype=dt).reshape(x["shape"]), groups=x["groups"])
+        b, r = run(i["base"]), run(i)
+        ctx.case(i, True)
+        for g in ("a", "b"):
+            d = "raised" if isinstance(b, str) or isinstance(r, str) else summ_equal(b[g], r[g], i["cfg"]["eval_metrics"])
+            if d:
+                ctx.violation(f"result of class group {g} changes when instance labels are renamed: {d}", i, key={"kind": "not-invariant"})
+                break
+        return
     if i.get("kind") == "encoding":
         dt = np.dtype(i.get("dtype", "uint64"))
         pred = np.array(i["pred"], dtype=dt).reshape(i["shape"])
